@@ -61,6 +61,22 @@ int drive(F f) {
 	return 0;
 }
 
+// heap copy of exactly n bytes (no terminating NUL, no slack): a one-byte over-read or
+// over-write next to it is an ASan report.
+struct exact_buf {
+	char *p; size_t n;
+	explicit exact_buf(std::string const &s):p(new char[s.size()]),n(s.size()) { if(n) memcpy(p,s.data(),n); }
+	explicit exact_buf(size_t k):p(new char[k]),n(k) { if(n) memset(p,0,n); }
+	~exact_buf(){ delete [] p; }
+	char *begin() const { return p; }
+	char *end() const { return p+n; }
+	unsigned char *ubegin() const { return reinterpret_cast<unsigned char*>(p); }
+	unsigned char *uend() const { return reinterpret_cast<unsigned char*>(p)+n; }
+	std::string str() const { return std::string(p,n); }
+private:
+	exact_buf(exact_buf const &); void operator=(exact_buf const &);
+};
+
 // deterministic PRNG (splitmix64) for harness-side choices
 struct rng {
 	uint64_t s;
